@@ -33,7 +33,7 @@ CHECKS["C11"] = {
         H("glyf", "c11.go", "VerifH_C11_components", ["fixed"], quick={"timeout": 120}),
         H("glyf", "c11.go", "VerifH_C11_loca", ["long", "short"], quick={"timeout": 120}),
     ],
-    "bounds": {"quick": "simple glyphs: <=3 contours, <=3 points, body <= 2*nc+2+5 symbolic bytes (+3 for three contours), instruction length <=2; glyph sets of <=2 glyphs (nil/simple/composite with 1-2 components, symbolic flags, args, ids, bbox); arbitrary glyf bytes <=16 split into 2 glyphs, both loca formats; loca: <=3 glyph sizes symbolic up to 200000 each",
+    "bounds": {"quick": "simple glyphs: <=3 contours, <=3 points, body <= 2*nc+2+5 symbolic bytes (+3 for three contours), instruction length <=2; glyph sets of <=2 glyphs (nil/simple/composite with 1-2 components, symbolic flags, args, ids, bbox); arbitrary glyf bytes <=16 split into 2 glyphs, both loca formats; loca: <=3 glyph sizes symbolic up to 200000 each; composites with 2..3 components where any component may carry WE_HAVE_INSTRUCTIONS (0..3 symbolic instruction bytes, symbolic ids and arguments)",
                "thorough": "as quick with <=5 points, body +8, 3 glyphs, 24 arbitrary bytes"},
     "outside": ["more than 3 glyphs per set", "more than 2 components", "simple glyphs with more than 5 points", "comparison with golang.org/x/image"],
     "assumptions": ["SimpleGlyph value domain: Encoded is a complete unpadded description (what glyf.Decode delivers)",
@@ -91,7 +91,7 @@ CHECKS["C09"] = {
           quick={"params": {"maxsub": 2}, "timeout": 280}, thorough={"params": {"maxsub": 3}, "timeout": 2400}),
         H("cmap", "c09.go", "VerifH_C09_best", ["chosen"], quick={"timeout": 100}),
     ],
-    "bounds": {"quick": "format 4 decode: arbitrary 2-segment subtables (36..40 bytes), spans <=2 codes, glyphIdArray <=2 words, symbolic query code; format 4 encode: maps of 1..2 entries with keys symbolic in [0xFFF8,0xFFFF] and symbolic non-zero 16-bit glyph ids, symbolic language and query code; format 12: 0..3 entries with symbolic keys <= 0x10FFFF; decodeFormat12 on <=2 arbitrary groups (span<=3); formats 0 and 6 on arbitrary bytes; Table with 1..2 subtables and symbolic keys; all 32 presence patterns of the GetBest candidates",
+    "bounds": {"quick": "format 4 decode: arbitrary 2-segment subtables (36..40 bytes), spans <=2 codes, glyphIdArray <=2 words, symbolic query code; format 4 encode: maps of 1..2 entries with keys symbolic in [0xFFF8,0xFFFF] and symbolic non-zero 16-bit glyph ids, symbolic language and query code; format 12: 0..3 entries with symbolic keys <= 0x10FFFF; decodeFormat12 on <=2 arbitrary groups (span<=3); formats 0 and 6 on arbitrary bytes; Table with 1..2 subtables and symbolic keys; all 32 presence patterns of the GetBest candidates; CodeRange of format 4 and 12 maps with 1..3 symbolic keys under every map iteration order",
                "thorough": "format 4 spans <=4, array 3 words, 3 map entries; format 12 with 4 entries; 3 subtables"},
     "outside": ["format 4 maps with keys outside the 8-code window or more than 3 entries (dense maps near the 64 KiB limit)", "format 12 with more than 4 entries", "Mac Roman code translation of format 0/4/6 subtables (code2rune)", "x/image comparison"],
     "assumptions": ["idRangeOffset values even; last segment ends at 0xFFFF (format requirement)", "lookups whose glyphIdArray address lies outside the subtable are undefined by the specification and excluded",
@@ -114,7 +114,7 @@ CHECKS["C12"] = {
         H("post", "c12.go", "VerifH_C12_post_bytes", ["accepted"], quick={"timeout": 200}),
         H(".", ["c12.go", "common.go"], "VerifH_C12_fontderived", ["read"], quick={"timeout": 280}),
     ],
-    "bounds": {"quick": "hmtx: 1..2 glyphs with symbolic int16 widths, extents and (optionally explicit) side bearings, vertical caret; arbitrary 36-byte hhea + <=8 byte hmtx; head: all fields symbolic (timestamps any int64 second or unset), arbitrary 54 bytes; maxp both versions, arbitrary <=32 bytes; OS/2: all fields symbolic (version 4), arbitrary tables of 68..100 bytes; post header: italic angle any 16.16 value, arbitrary 32..36 bytes",
+    "bounds": {"quick": "hmtx: 1..2 glyphs with symbolic int16 widths, extents and (optionally explicit) side bearings, vertical caret; arbitrary 36-byte hhea + <=8 byte hmtx; head: all fields symbolic (timestamps any int64 second or unset), arbitrary 54 bytes; maxp both versions, arbitrary <=32 bytes; OS/2: all fields symbolic (version 4), arbitrary tables of 68..100 bytes; post header: italic angle any 16.16 value, arbitrary 32..36 bytes; usFirstCharIndex / usLastCharIndex of the OS/2 table written by (*Font).Write for format 12 cmaps of 1..3 symbolic code points from any plane",
                "thorough": "hmtx 3 glyphs / 16 bytes"},
     "outside": ["caret slope rise/run (Atan2/Sin/Cos are outside the solver fragment): vertical caret only", "glyph counts above 6", "font-level derived fields other than usFirstCharIndex / usLastCharIndex (FontBBox, xAvgCharWidth) and PDF-unit queries", "post glyph names (C14)"],
     "assumptions": ["OS/2 normal form: IsRegular clears IsBold/IsItalic, non-positive XHeight/CapHeight are stored as 0, Unicode range bit 57 follows LastCharIndex==0xFFFF", "a timestamp encoding to 0 (1904-01-01 00:00:00) is read as 'unset'", "xMaxExtent/minRSB definitions checked with lsb = xMin (LSB derived from the extents)"],
@@ -151,7 +151,7 @@ CHECKS["C13"] = {
         H("cff", "c18.go", "VerifH_C13_offsets", ["read"], quick={"params": {"noticebase": 1040, "noticespan": 70}, "timeout": 280, "shards": 2}, thorough={"params": {"noticebase": 0, "noticespan": 1300}, "timeout": 2400, "shards": 2}),
         H("cff", "c13.go", "VerifH_C13_width", ["selected"], quick={"params": {"maxglyphsel": 2}, "timeout": 280}, thorough={"params": {"maxglyphsel": 3}, "timeout": 2400}),
     ],
-    "bounds": {"quick": "DICT: 1..2 operands, each any int32; arbitrary DICT bytes (<=2, no reals); INDEX: 0..3 blobs of 0..2 symbolic bytes, and single blobs at the offSize thresholds {0,1,254,255,256,65534,65535,65536,70000}; charset: 1..4 symbolic 16-bit SIDs/CIDs (every run structure) plus runs of {255,256,257,300,513}; FDSelect: {1,2,5,8,9} glyphs over 1..3 font dicts, symbolic query glyph; widths: fonts of 1 or 2 glyphs with symbolic widths on a 1/16 grid in [-2000,2000] through selectWidths, makePrivateDict, encodeCharString and decodeCharString",
+    "bounds": {"quick": "DICT: 1..2 operands, each any int32; arbitrary DICT bytes (<=2, no reals); INDEX: 0..3 blobs of 0..2 symbolic bytes, and single blobs at the offSize thresholds {0,1,254,255,256,65534,65535,65536,70000}; charset: 1..4 symbolic 16-bit SIDs/CIDs (every run structure) plus runs of {255,256,257,300,513}; FDSelect: {1,2,5,8,9} glyphs over 1..3 font dicts, symbolic query glyph; widths: fonts of 1 or 2 glyphs with symbolic widths on a 1/16 grid in [-2000,2000] through selectWidths, makePrivateDict, encodeCharString and decodeCharString; every field of a Private DICT (BlueValues pair, BlueShift, BlueFuzz, StdHW, StdVW on a 1/16 grid, ForceBold, default and nominal width) at the cffDict seam; deterministic width selection under every map order; whole cff.Font Write -> Read of 2- and 4-glyph fonts with the Notice string length swept over 1040..1109 (section offsets crossing 1131|1132) and one symbolic width",
                "thorough": "DICT bytes 3, 7 names, up to 12 glyphs, 4 glyphs for widths"},
     "outside": ["DICT real numbers (encodeFloat/decodeFloat use Log10/Pow10/ParseFloat: not in the solver fragment)", "string INDEX / SIDs of custom strings, built-in encodings with supplements", "whole cff.Font Write/Read (CID-keyed fonts, FontInfo, font matrices)", "more than 9 glyphs, 256 private dicts"],
     "assumptions": ["widths on a 1/16 grid (exact dyadic arithmetic)", "default/nominal widths as seen by the reader are taken from the cffDict before DICT serialisation (reals are not serialised symbolically)"],
@@ -171,7 +171,7 @@ CHECKS["C05"] = {
         H("cff", ["c05.go", "t2ref.go"], "VerifH_C05_fault", ["done"], quick={"timeout": 200}),
         H("cff", ["c05.go", "t2ref.go"], "VerifH_C05_bytes", ["accepted"], quick={"params": {"maxlen": 3}, "timeout": 280}, thorough={"params": {"maxlen": 5}, "timeout": 2400}),
     ],
-    "bounds": {"quick": "programs: [width] + one moveto + one path operator (all 14 path/flex operators, every legal operand count up to 13) + endchar; stem programs with {0,1,2,4} [8] hstem/vstem pairs (so that the total is a multiple of 8 or not), explicit or implicit vstem, hintmask/cntrmask, second mask; one arithmetic/conditional/stack/storage operator with symbolic operands; subroutine tables of size {0,1,1239,1240,33899,33900,40000} with symbolic biased index near both table ends, local and global; call depth 8..11; 8 single-fault classes; arbitrary bytes of length <=3.  Operands symbolic int16 (operator 28) in [-10000,10000] [thorough: 16.16 via operator 255]",
+    "bounds": {"quick": "programs: [width] + one moveto + one path operator (all 14 path/flex operators, every legal operand count up to 13) + endchar; stem programs with {0,1,2,4} [8] hstem/vstem pairs (so that the total is a multiple of 8 or not), explicit or implicit vstem, hintmask/cntrmask, second mask; one arithmetic/conditional/stack/storage operator with symbolic operands; subroutine tables of size {0,1,1239,1240,33899,33900,40000} with symbolic biased index near both table ends, local and global; call depth 8..11; 8 single-fault classes; arbitrary bytes of length <=3.  Operands symbolic int16 (operator 28) in [-10000,10000] [thorough: 16.16 via operator 255]; three subroutines calling each other with symbolic targets, the call in last position or followed by return; put and get on either side of a local or global subroutine call; INDEX round trip with empty entries (shared with C13)",
                "thorough": "16.16 operands; arbitrary bytes <=5"},
     "outside": ["operands outside [-32000,32000] (the decoder clamps deltas to that range by documented design)", "sqrt, div, random (outside the exact dyadic fragment)", "programs with more than one path operator after the prefix", "agreement with x/image"],
     "assumptions": ["reference interpreter written from Adobe TN5177 (harness/cff/t2ref.go) is the oracle", "arithmetic operands in [-150,150] so that results stay within the coordinate range"],
@@ -189,7 +189,7 @@ CHECKS["C04"] = {
         H("cff", ["c04.go", "t2ref.go"], "VerifH_C04_accum", ["compiled"], quick={"params": {"accumextra": 0}, "timeout": 280}, thorough={"params": {"accumextra": 2}, "timeout": 2400}),
         H("cff", ["c04.go", "t2ref.go"], "VerifH_C04_bigdelta", [], quick={"timeout": 200}),
     ],
-    "bounds": {"quick": "encodeInt: every int16; encodeNumber: every x on a 2^-18 grid in (-32767,32767); glyphs: moveto + 1 further segment (line or move; curves in the thorough tier) with integer coordinates symbolic in [-120,120], symbolic width and default/nominal widths; stems {0,1,2,23,24} per direction with symbolic first edge, no mask or hintmask first [thorough: cntrmask, mask after the first move]; runs of 23..29 lines / 7..9 curves with two solver-chosen steps",
+    "bounds": {"quick": "encodeInt: every int16; encodeNumber: every x on a 2^-18 grid in (-32767,32767); glyphs: moveto + 1 further segment (line or move; curves in the thorough tier) with integer coordinates symbolic in [-120,120], symbolic width and default/nominal widths; stems {0,1,2,23,24} per direction with symbolic first edge, no mask or hintmask first [thorough: cntrmask, mask after the first move]; runs of 23..29 lines / 7..9 curves with two solver-chosen steps; two consecutive curves with horizontal joint and symbolic vertical deltas in [-2,2] (flex candidates); runs of 3 lines or curves whose end points sit on quarter positions of the 16.16 cell; runs of 3 curves with every combination of horizontal / vertical / general start and end tangents, the last end tangent symbolic",
                "thorough": "2 further segments incl. curves on a 1/16 grid in [-8000,8000]; stems up to 48 per direction"},
     "outside": ["more than 4 free segments", "coordinates beyond +-8000 in the general harness (deltas must fit one Type 2 number; the big-delta case is a separate harness / known finding)", "non-dyadic reals"],
     "assumptions": ["reference interpreter from TN5177 (harness/cff/t2ref.go) judges well-formedness (operand counts, 48-entry stack, endchar)"],
@@ -220,9 +220,9 @@ CHECKS["C02"] = {
         H("opentype/gtab", _S7, "VerifH_C07_reader", ["accepted"], quick={"params": {"maxwords": 3}, "timeout": 280, "shards": 6}, thorough={"params": {"maxwords": 8}, "timeout": 2400, "shards": 6}),
         H(".", ["c02.go", "c16.go", "common.go"], "VerifH_C02_fontread", ["accepted", "rejected"], quick={"params": {"window": 2, "stride": 2, "nshards": 8}, "timeout": 280, "shards": 8}, thorough={"params": {"window": 3, "stride": 1, "nshards": 14}, "timeout": 2400, "shards": 14}),
     ],
-    "bounds": {"quick": "arbitrary bytes per decoder, every implicit runtime check is an obligation: header.Read 12+16*1(+4) bytes; kern.Read <=2 subtables x <=1 pair; cmap.Decode <=1 encoding record + 10..18 byte body, then Get/Lookup/CodeRange/GetBest; cmap formats 0/6/12; glyf.Decode 16 bytes split into 2 glyphs (both loca formats) + SimpleGlyph.Decode; hmtx 36+8; head 54; maxp <=32; OS/2 68..100; post 32..36; name 6+12+2; CFF: readIndex <=8 bytes, readCharset <=8, readFDSelect <=9, readPrivate with arbitrary int32 (size, offset) over an 8-byte file under a 1 MiB allocation obligation, coverage and class definition tables <=12 bytes, GDEF tables 12..16 bytes, GSUB subtable readers 6..12 bytes followed by Apply, DICT <=2 bytes, Type 2 charstrings <=3 bytes",
+    "bounds": {"quick": "arbitrary bytes per decoder, every implicit runtime check is an obligation: header.Read 12+16*1(+4) bytes; kern.Read <=2 subtables x <=1 pair; cmap.Decode <=1 encoding record + 10..18 byte body, then Get/Lookup/CodeRange/GetBest; cmap formats 0/6/12; glyf.Decode 16 bytes split into 2 glyphs (both loca formats) + SimpleGlyph.Decode; hmtx 36+8; head 54; maxp <=32; OS/2 68..100; post 32..36; name 6+12+2; CFF: readIndex <=8 bytes, readCharset <=8, readFDSelect <=9, readPrivate with arbitrary int32 (size, offset) over an 8-byte file under a 1 MiB allocation obligation, coverage and class definition tables <=12 bytes, GDEF tables 12..16 bytes, GSUB subtable readers 6..12 bytes followed by Apply, DICT <=2 bytes, Type 2 charstrings <=3 bytes; sfnt.Read + accessors (glyph count, widths, boxes, names, simple-glyph decoding, components, cmap lookup, re-encoding) on every file that differs from a valid 5-glyph TrueType font (glyf/loca, cmap 12 with H and x, GSUB 4.1, GPOS 2.1+1.1, raw cvt/prep) in a window of 2 arbitrary bytes at every even offset behind the table directory (loops with input-dependent trip count cut at 12 iterations; fields listed under outside excluded); kern tables truncated anywhere inside the last subtable; Type 2 subroutines calling each other with symbolic targets",
                "thorough": "larger byte bounds per decoder (see harness list)"},
-    "outside": ["sfnt.Read / cff.Read / gtab.Read on whole adversarial files (component readers only; the gtab subtable readers are exercised under C07)", "inputs of realistic size (several MB), time/allocation linearity beyond the per-path allocation obligation (e.g. quadratic work from overlapping kern subtables)", "termination beyond the unwinding bound of 100000 iterations per loop"],
+    "outside": ["sfnt.Read beyond 2-byte [3-byte] windows of one valid file, and in that harness the windows over head.unitsPerEm / created / modified, hhea caret slope, post italic angle, name strings and their length/offset fields, GSUB/GPOS script and language tags (consumers outside the solver fragment); cff.Read / gtab.Read on whole adversarial files (component readers only; the gtab subtable readers are exercised under C07)", "inputs of realistic size (several MB), time/allocation linearity beyond the per-path allocation obligation (e.g. quadratic work from overlapping kern subtables)", "termination beyond the unwinding bound of 100000 iterations per loop"],
     "assumptions": ["counts inside the inputs are assumed small where a decoder materialises per-entry data (listed in each harness)", "allocation obligation: every make() on a path is at most 2^22 elements (1 MiB in the CFF Private DICT harness)"],
 }
 
@@ -243,7 +243,7 @@ CHECKS["C08"] = {
         H("opentype/gtab", _G, "VerifH_C08_context", ["read"], quick={"params": {"ctxbig": 0}, "timeout": 280, "shards": 6}, thorough={"params": {"ctxbig": 1}, "timeout": 2400, "shards": 6}),
         H("opentype/gtab", _G, "VerifH_C08_lookuplist", ["read"], quick={"params": {"maxlookups": 2}, "timeout": 280}, thorough={"params": {"maxlookups": 3}, "timeout": 2400}),
     ],
-    "bounds": {"quick": "coverage tables of 0..4 symbolic glyph ids over the full 16-bit range, arbitrary coverage bytes (<=12); class definitions of 0..3 glyphs inside an 8-id window with symbolic classes, arbitrary bytes (<=12); GSUB 1.1/1.2/2.1/3.1/4.1, GPOS 1.1/1.2/2.1/2.2/3.1/4.1/6.1, (chained) sequence context formats 1, 2 and 3 (class based formats with nil / empty / one-rule rule sets per class) with 1..2 coverage glyphs, <=2 rules/ligatures/alternates, <=2 nested actions, all ids/values symbolic; lookup lists of 0..2 lookups with symbolic flags and mark filtering set; GDEF tables with 0..2 classed glyphs, a mark attachment class and 0..2 mark glyph sets of 0..2 symbolic glyphs",
+    "bounds": {"quick": "coverage tables of 0..4 symbolic glyph ids over the full 16-bit range, arbitrary coverage bytes (<=12); class definitions of 0..3 glyphs inside an 8-id window with symbolic classes, arbitrary bytes (<=12); GSUB 1.1/1.2/2.1/3.1/4.1, GPOS 1.1/1.2/2.1/2.2/3.1/4.1/6.1, (chained) sequence context formats 1, 2 and 3 (class based formats with nil / empty / one-rule rule sets per class) with 1..2 coverage glyphs, <=2 rules/ligatures/alternates, <=2 nested actions, all ids/values symbolic; lookup lists of 0..2 lookups with symbolic flags and mark filtering set; GDEF tables with 0..2 classed glyphs, a mark attachment class and 0..2 mark glyph sets of 0..2 symbolic glyphs; GPOS 2.2 (2x2 classes), 3.1, 4.1, 6.1 with symbolic glyph ids, classes, value records and anchors; class definitions made of 2..3 runs (lengths 1..4, gaps 0..2, classes 1..3); script lists with any subset of 5 language systems of 3 scripts and symbolic feature indices; 11 subtable kinds with 600-glyph coverage tables (larger than the parser's window) and GPOS 4.1 / 6.1 with 300 marks",
                "thorough": "6 coverage glyphs, 5 classdef glyphs, 3 lookups"},
     "outside": ["GPOS 5 and GSUB 8.1 round trips, GPOS 2.2/3.1/4.1/6.1 beyond 2x2 classes / 2 glyphs per coverage", "extension subtables for lookup lists beyond 64 KiB", "script lists beyond 5 language systems of 3 scripts (x/text language tags run natively on concrete tags), feature lists"],
     "assumptions": ["coverage tables have indices 0..n-1 in increasing glyph order (value domain)", "class 0 entries are not stored (normal form)"],
@@ -263,7 +263,7 @@ CHECKS["C06"] = {
         H("opentype/gtab", _S, "VerifH_C06_markbase", ["applied"], quick={"timeout": 280}),
         H("opentype/gtab", _S, "VerifH_C06_chained", ["applied"], quick={"params": {"maxlen": 2}, "timeout": 280, "shards": 4}, thorough={"params": {"maxlen": 3}, "timeout": 2400, "shards": 4}),
     ],
-    "bounds": {"quick": "lookup lists of concrete shape (GSUB 1.1, 1.2, 2.1 (+ a second lookup in 3 orders), 3.1, 4.1 with two competing ligatures, GPOS 1.1, 2.1 and 2.2 (class pairs, class values up to and beyond the matrix size) with/without second record, sequence context 5.1 with nested single substitutions) with symbolic replacement ids / value records / nested action indices; lookup flags symbolic over ignore-base/ligature/marks, mark filtering set and mark attachment type 0..2; GDEF class, mark attachment class and mark-set membership of one alphabet glyph symbolic; glyph sequences of length 1..3 [2..3 for ligature/pair/context] with symbolic ids over a 4-glyph alphabet",
+    "bounds": {"quick": "lookup lists of concrete shape (GSUB 1.1, 1.2, 2.1 (+ a second lookup in 3 orders), 3.1, 4.1 with two competing ligatures, GPOS 1.1, 2.1 and 2.2 (class pairs, class values up to and beyond the matrix size) with/without second record, sequence context 5.1 with nested single substitutions) with symbolic replacement ids / value records / nested action indices; lookup flags symbolic over ignore-base/ligature/marks, mark filtering set and mark attachment type 0..2; GDEF class, mark attachment class and mark-set membership of one alphabet glyph symbolic; glyph sequences of length 1..3 [2..3 for ligature/pair/context] with symbolic ids over a 4-glyph alphabet; chained contexts 6.1 / 6.3 at top level and as nested lookup of context 5.1 / 5.3 with lookahead behind the parent's input (coverage sets symbolic over {1,2}); mark-to-base 4.1 with symbolic anchors, mark class and advances and a mark / ignored ligature between base and mark (only where specification and library agree on the base glyph); resume position after a pair adjustment (2.1 and 2.2) on sequences of 4 glyphs; nested contextual lookups of every format pair (scratch space reuse, shared with C07)",
                "thorough": "sequences up to length 4-5"},
     "outside": ["GSUB 8.1, class/coverage based context formats, chained contexts, GPOS 3/4/5/6", "nested lookups that change the sequence length inside a context", "sequences longer than 5, alphabets larger than 4"],
     "assumptions": ["reference shaper written from the OpenType specification (harness/opentype/gtab/refshaper.go) is the oracle", "an undefined mark filtering set contains no glyph"],
@@ -284,7 +284,7 @@ CHECKS["C07"] = {
         H("opentype/gtab", _S7, "VerifH_C06_multiple", ["applied"], quick={"params": {"maxlen": 2}, "timeout": 280}),
         H("opentype/gtab", _S7, "VerifH_C06_pairclass", ["applied"], quick={"params": {"maxlen": 2}, "timeout": 280}),
     ],
-    "bounds": {"quick": "GSUB subtable readers (types 1-6, every format) on arbitrary 6..12 byte inputs whose 16-bit words are <= the input length, the accepted subtable applied to symbolic sequences of length 1..2; lookup flags fully symbolic with mark filtering set index 0..3 against GDEF tables defining 0, 1 or 2 sets; Context reuse: a first Apply matching a rule with {1,63,64,70} nested actions followed by a second Apply on a symbolic sequence, compared with a fresh Context and the reference; a self-referential context rule with symbolic action indices; text conservation on the ligature and multiple-substitution harnesses of C06",
+    "bounds": {"quick": "GSUB subtable readers (types 1-6, every format) on arbitrary 6..12 byte inputs whose 16-bit words are <= the input length, the accepted subtable applied to symbolic sequences of length 1..2; lookup flags fully symbolic with mark filtering set index 0..3 against GDEF tables defining 0, 1 or 2 sets; Context reuse: a first Apply matching a rule with {1,63,64,70} nested actions followed by a second Apply on a symbolic sequence, compared with a fresh Context and the reference; a self-referential context rule with symbolic action indices; text conservation on the ligature and multiple-substitution harnesses of C06; every one-word mutation of valid GPOS 1.1/1.2/2.1/2.2/3.1/4.1/6.1 subtables through the reader and Apply on sequences of 2..3 symbolic glyphs; nested contextual lookups of all 6x6 format pairs on a sequence containing the pattern twice, Context reused; ligature substitution on glyphs whose Text slices share one backing array; FindLookups under every map order (shared with C15)",
                "thorough": "readers on up to 22 byte inputs"},
     "outside": ["gtab.Read on whole adversarial tables (per subtable only)", "GPOS readers", "sequences of length up to 200", "Layouter reuse (sfnt.Layouter)", "map iteration order inside FindLookups (C15)"],
     "assumptions": ["reference shaper (refshaper.go)", "reader inputs restricted to small 16-bit words (counts/offsets within the input)"],
@@ -311,7 +311,7 @@ CHECKS["C20"] = {
         H("cff", "c20.go", "VerifH_C20_makesimple", ["named"], quick={"params": {"maxglyphs": 4}, "timeout": 280, "shards": 5}, thorough={"params": {"maxglyphs": 5}, "timeout": 2400, "shards": 5}),
         H(".", ["c20.go", "common.go"], "VerifH_C20_cff", ["named"], quick={"params": {"maxnamelen": 1}, "timeout": 280}, thorough={"params": {"maxnamelen": 2}, "timeout": 2400}),
     ],
-    "bounds": {"quick": "TrueType font with 4 glyphs whose names are absent, a too-short list, or 4 symbolic strings of length 0..1 [2 in thorough] over {A,B,.} (missing, duplicate and colliding names are solver-chosen); format 12 cmap for 'A' and 'B' with one [thorough: two] symbolic target glyph(s); none or one GSUB 1.2 / 3.1 / 4.1 subtable with one [two] symbolic in-range glyph id(s); nondeterministic map iteration order; MakeGlyphNames twice, EnsureGlyphNames, GlyphName; a 3-glyph simple CFF font with symbolic names",
+    "bounds": {"quick": "TrueType font with 4 glyphs whose names are absent, a too-short list, or 4 symbolic strings of length 0..1 [2 in thorough] over {A,B,.} (missing, duplicate and colliding names are solver-chosen); format 12 cmap for 'A' and 'B' with one [thorough: two] symbolic target glyph(s); none or one GSUB 1.2 / 3.1 / 4.1 subtable with one [two] symbolic in-range glyph id(s); nondeterministic map iteration order; MakeGlyphNames twice, EnsureGlyphNames, GlyphName; a 3-glyph simple CFF font with symbolic names; two ligature rules and a single substitution with symbolic components / results among 5 glyphs (names generated twice from the same base); cff.Outlines.MakeSimple on 4 glyphs whose names are absent / a letter / letter.altN / orn00N / .notdef with symbolic letters and digits and optional text",
                "thorough": "same"},
     "outside": ["PostScriptName (regexp over a symbolic string)", "CID-keyed fonts", "more than 5 glyphs, symbolic names longer than 2 bytes (cff MakeSimple: names from a list of 8 candidates)"],
     "assumptions": ["GSUB rules refer to existing glyphs (as the property's quantifier states)"],
@@ -326,7 +326,7 @@ CHECKS["C15"] = {
         H("opentype/gtab", ["c15.go", "common.go"], "VerifH_C15_find", ["found"], quick={"timeout": 280}),
         H("kern", "c02.go", "VerifH_C02_kern", ["accepted"], quick={"params": {"maxpairs": 1}, "timeout": 280, "shards": 3}),
     ],
-    "bounds": {"quick": "4-glyph TrueType font with symbolic widths, strings of 0..2 characters from {A,B,f,i,Z,U+1F600} (mapped and unmapped), layouter reused for a second call; kerning pairs with symbolic values in the structure sfnt.Read builds for a legacy kern table, strings of 2..3 characters; standardLigatures for all 32 presence patterns of U+FB00..FB04; FindLookups with 1..2 language systems, symbolic required/optional feature indices and lookup indices (incl. out of range), default or explicit switches, three query languages, nondeterministic map order; kern.Read vs the specification (shared with C02)",
+    "bounds": {"quick": "4-glyph TrueType font with symbolic widths, strings of 0..2 characters from {A,B,f,i,Z,U+1F600} (mapped and unmapped), layouter reused for a second call; kerning pairs with symbolic values in the structure sfnt.Read builds for a legacy kern table, strings of 2..3 characters; standardLigatures for all 32 presence patterns of U+FB00..FB04; FindLookups with 1..2 language systems, symbolic required/optional feature indices and lookup indices (incl. out of range), default or explicit switches, three query languages, nondeterministic map order; kern.Read vs the specification (shared with C02); NewLayouter with nil / empty / named GSUB and GPOS switch maps on a font with optional liga and kern features (symbolic kerning value)",
                "thorough": "strings of 3 characters"},
     "outside": ["whole-font reading (sfnt.Read) and the best-subtable choice inside it (C09)", "20 language systems", "GSUB features beyond the synthesized ligatures"],
     "assumptions": ["language matching (golang.org/x/text/language) runs natively on concrete tags"],
@@ -341,7 +341,7 @@ CHECKS["C18"] = {
         H(".", ["c18.go", "c16.go", "common.go"], "VerifH_C18_fontwrite", ["success", "fault"], quick={"timeout": 280, "shards": 2}),
         H(".", ["c18.go", "c16.go", "common.go"], "VerifH_C18_fontread", ["complete", "fault"], quick={"timeout": 280, "shards": 2}),
     ],
-    "bounds": {"quick": "containers with 1..3 tables (optional 54-byte head, a table of 0/1/4/5 bytes, optionally a third of 2/3/8 bytes, symbolic contents): a writer accepting exactly k bytes for every k in 0..len+4 (k symbolic); the written file truncated to every k < len; a ReaderAt returning a non-EOF error for any access touching offset >= k, for every k; parser short reads (shared with C17, first 6 file lengths); (*cff.Font).Write of a concrete 2-glyph font into a writer failing after k bytes, every k",
+    "bounds": {"quick": "containers with 1..3 tables (optional 54-byte head, a table of 0/1/4/5 bytes, optionally a third of 2/3/8 bytes, symbolic contents): a writer accepting exactly k bytes for every k in 0..len+4 (k symbolic); the written file truncated to every k < len; a ReaderAt returning a non-EOF error for any access touching offset >= k, for every k; parser short reads (shared with C17, first 6 file lengths); (*cff.Font).Write of a concrete 2-glyph font into a writer failing after k bytes, every k; (*Font).Write and WriteTrueTypePDF of a 5-glyph font with GSUB/GPOS into a writer accepting exactly k bytes, every k (symbolic); sfnt.Read of that file truncated to k bytes and through a streaming reader failing after k bytes, every k",
                "thorough": "same"},
     "outside": ["the full font writer / reader ((*Font).Write, sfnt.Read) with injected faults", "streaming (non-seekable) readers", "files larger than ~150 bytes"],
     "assumptions": ["the failing writer reports short writes together with an error (io.Writer contract)"],
@@ -354,9 +354,9 @@ CHECKS["C01"] = {
         H(".", ["c01.go", "common.go"], "VerifH_C01_truetype", ["read back"], quick={"params": {"upems": 2, "widthclasses": 2, "symwidths": 2, "perms": 2}, "timeout": 290, "shards": 12}, thorough={"params": {"upems": 3, "widthclasses": 9, "symwidths": 4, "symweight": 1, "perms": 4}, "timeout": 3000, "shards": 16}),
     ],
     "level_text": "Compositional and bounded: the table-level round trips and fixed points are decided by the checks of C03, C08, C09, C11, C12, C13 and C14; this check adds the whole-font merge (Font.Write -> sfnt.Read -> Font.Write) executed symbolically on a tiny TrueType font of concrete shape with symbolic numeric fields.  It holds for all values of those fields within the bounds, and says nothing about other font shapes.",
-    "bounds": {"quick": "one TrueType font shape: 4 glyphs (simple, simple, composite, empty), format 12 cmap for 2 characters, no GSUB/GPOS/GDEF, concrete strings and timestamps; symbolic islands: 2 of the 4 advance widths (>= 0) [all 4 in thorough], ascent, descent, line gap, cap height, x-height (> 0), weight class of {400,650,700} [1..1000], width class of {5,1} [all 9], bold/regular flags, serif/script/neither by case split, 2 [4] permission classes, all 64 code page bits, underline position and thickness; units per em of {1000, 2048}; three representative map iteration orders; obligations: unambiguous fields equal after Read(Write(F)), Write twice byte-identical, Write(Read(Write(Read(Write F)))) == Write(Read(Write F))",
+    "bounds": {"quick": "one TrueType font shape: 4 glyphs (simple, simple, composite, empty), format 12 cmap for 2 characters, no GSUB/GPOS/GDEF, concrete strings and timestamps; symbolic islands: 2 of the 4 advance widths (>= 0) [all 4 in thorough], ascent, descent, line gap, cap height, x-height (> 0), weight class of {400,650,700} [1..1000], width class of {5,1} [all 9], bold/regular flags, serif/script/neither by case split, 2 [4] permission classes, all 64 code page bits, underline position and thickness; units per em of {1000, 2048}; three representative map iteration orders; obligations: unambiguous fields equal after Read(Write(F)), Write twice byte-identical, Write(Read(Write(Read(Write F)))) == Write(Read(Write F)); further shapes (VerifH_C01_shapes): a composite glyph declaring instructions of 0..2 symbolic bytes followed by another glyph, naming strings containing one symbolic Unicode scalar value (one process per UTF-8 length class), two Macintosh cmap subtables with symbolic distinct language fields; CFF width selection under every map order for fonts of 1..2 glyphs (shared with C13)",
                "thorough": "all 9 width classes, units per em 16 as well"},
-    "outside": ["CFF and CID-keyed fonts at font level", "GSUB/GPOS/GDEF inside the whole font", "arbitrary accepted byte strings as whole files", "strings, version and timestamps as symbols", "italic angle other than 0 (trigonometric functions)", "fonts with more than 4 glyphs"],
+    "outside": ["CFF and CID-keyed fonts at font level (CFF: width selection and cff.Font Write/Read only)", "GSUB/GPOS/GDEF inside the whole font", "arbitrary accepted byte strings as whole files", "strings, version and timestamps as symbols", "italic angle other than 0 (trigonometric functions)", "fonts with more than 4 glyphs"],
     "assumptions": ["derived style fields (IsBold/IsItalic/IsRegular, which the reader also infers from weight and subfamily name) are compared only through the fixed point, not against F"],
 }
 
@@ -366,7 +366,7 @@ CHECKS["C16"] = {
         H("opentype/gtab/builder", ["c19.go"], "VerifH_C16_explain", ["done"], quick={"timeout": 280}),
     ],
     "level_text": "Frame argument decided symbolically: after the font is built every existing object (the font, everything reachable from it, all package-level variables) is frozen and every store, map update, delete, in-place append or copy into a frozen object during a read-only API call is an obligation, on every path.  Operations that only read shared memory cannot race with each other under the Go memory model and their results are functions of the shared state alone; this is a sufficient condition, actual interleavings are not explored.",
-    "bounds": {"quick": "one TrueType font (5 glyphs incl. a composite and an empty glyph, format 12 cmap, one GSUB 4.1 lookup, one GPOS 2.1 lookup with script/feature lists); operations: Write, WriteTrueTypePDF, Subset (symbolic glyph), Clone, FontBBox/Widths/GlyphBBoxes/IsFixedPitch/NumGlyphs, MakeGlyphNames, GetFontInfo, NewLayouter+Layout twice, gtab.NewContext+Apply on the shared lookup list; builder.ExplainGsub / ExplainGpos on a second font (8 glyphs, GSUB 2.1/3.1/4.1/6.3 and GPOS 1.2/2.1 with unsorted alternate sets, ligature lists and coverage tables)",
+    "bounds": {"quick": "one TrueType font (5 glyphs incl. a composite and an empty glyph, format 12 cmap, one GSUB 4.1 lookup, one GPOS 2.1 lookup with script/feature lists); operations: Write, WriteTrueTypePDF, Subset (symbolic glyph), Clone, FontBBox/Widths/GlyphBBoxes/IsFixedPitch/NumGlyphs, MakeGlyphNames, GetFontInfo, NewLayouter+Layout twice, gtab.NewContext+Apply on the shared lookup list; builder.ExplainGsub / ExplainGpos on a second font (8 glyphs, GSUB 2.1/3.1/4.1/6.3 and GPOS 1.2/2.1 with unsorted alternate sets, ligature lists and coverage tables); header.Write padding and GPOS pair encoding on shared raw tables / pair records (spare capacity fingerprinted)",
                "thorough": "same"},
     "outside": ["actual goroutine interleavings and the Go race detector", "CFF fonts (AsCFF().Write, WriteOpenTypeCFFPDF)", "races inside natively executed library functions (language matcher, Adobe glyph list)"],
     "assumptions": ["Go memory model: calls that do not write shared memory do not race", "natively executed intrinsics (x/text language matching, names.FromUnicode) are assumed not to write shared state"],
